@@ -21,7 +21,7 @@ from ..util import arr_equal, compositions, describe
 
 PROP = 'C03'
 
-SELECTORS = [[0, 1], [2, 0], [1, -1], [-1, -1]]
+SELECTORS = [[0, 1], [2, 0], [1, -1], [-1, -1], [-1, 2]]
 STYPES = ['int', 'int64', 'int32', 'uint64', 'uint32']
 
 
@@ -191,8 +191,12 @@ def run_b(case, acc, order):
                                     cset = [c for c in rows[i] if c != -1]
                                     common = cset if common is None else [c for c in common if c in cset]
                                 common = list(dict.fromkeys(common or []))
-                                for cq in range(1, len(common) + 1):
-                                    for chq in itertools.permutations(common, cq):
+                                queries = [chq for cq in range(1, len(common) + 1)
+                                           for chq in itertools.permutations(common, cq)]
+                                # a channel given as -1 is a column of zeros in a store lookup too
+                                queries += [(c, -1) for c in common[:1]] + [(-1, c) for c in common[:1]]
+                                for chq in queries:
+                                    if True:
                                         expq = np.stack([
                                             window(A, vec[i], nsw, list(chq)) for i in perm]
                                         ).astype(np.float64) * factor
@@ -277,7 +281,50 @@ def run_c(case, acc, order):
     acc.sample({'sweep': 'C', 'layout': lay, 'factors': list(FACTORS)}) if order == 0 else None
 
 
-RUN = {'A': run_a, 'B': run_b, 'C': run_c}
+def run_e(case, acc, order):
+    """Spike samples held in a narrow integer type on a recording longer than that type's range (file and
+    chunk bounds beyond 255 / 32767): direct extraction and chunk-by-chunk export."""
+    from phylib.io.traces import export_waveforms, extract_waveforms
+    lay = case['layout']
+    n = int(sum(lay['parts']))
+    with core.Scratch() as d:
+        reader, A = layouts.build_reader(d, lay)
+        try:
+            acc.state()
+            for st, vec in (('uint8', [3, 100, 255]), ('int16', [0, 149, 150, n - 1]),
+                            ('uint16', [1, 255, 256, n - 2]), ('int8', [0, 127])):
+                samples = np.array(vec, dtype=st)
+                rows = [SELECTORS[i % len(SELECTORS)] for i in range(len(vec))]
+                chans = np.array(rows, dtype=np.int64)
+                nsw = 4
+                exp = np.stack([window(A, s, nsw, r) for s, r in zip(vec, rows)]).astype(np.float64)
+                for route in ('export', 'extract'):
+                    try:
+                        if route == 'export':
+                            path = d / ('e_%s.npy' % st)
+                            export_waveforms(path, reader, samples, chans, n_samples_waveforms=nsw)
+                            got = np.load(path)
+                        else:
+                            got = np.stack([extract_waveforms(reader, samples[i:i + 1], chans[i],
+                                                              n_samples_waveforms=nsw)[0]
+                                            for i in range(len(vec))])
+                    except Exception as e:
+                        got = e
+                    acc.step(True, 'E:%s' % route)
+                    ok = isinstance(got, np.ndarray) and got.shape == exp.shape and \
+                        np.array_equal(got.astype(np.float64), exp)
+                    if not ok:
+                        kind = type(got).__name__ if isinstance(got, BaseException) else (
+                            'shape' if got.shape != exp.shape else 'value')
+                        sig = '%s/%s/narrow-sample-type/%s' % (PROP, route, kind)
+                        acc.violation(sig, core.make_record(
+                            PROP, route, sig, case=case, op={'spikes': vec, 'sample_type': st, 'nsw': nsw},
+                            expected=describe(exp), observed=describe(got)), order)
+        finally:
+            layouts.close_reader(reader)
+
+
+RUN = {'A': run_a, 'B': run_b, 'C': run_c, 'E': run_e}
 
 
 def run_case(case, acc, order):
@@ -357,6 +404,11 @@ def explore(ctx):
             l = dict(l, dtype=dt, n_channels=3, offset=0, sample_rate=3 / 600.0, fill=ctx.seed)
             casesC.append({'sweep': 'C', 'layout': l})
     ctx.run_cases(run_case, casesC, chunk=1, sweep='C-declared-dtype')
+    casesE = [{'sweep': 'E', 'layout': dict(l, dtype='int16', n_channels=3, offset=0, fill=ctx.seed)}
+              for l in ({'backend': 'flat', 'parts': [150, 150], 'sample_rate': 100 / 600.0},
+                        {'backend': 'array', 'parts': [300], 'sample_rate': 128 / 600.0},
+                        {'backend': 'flat', 'parts': [100, 100, 100], 'sample_rate': 1000.0})]
+    ctx.run_cases(run_case, casesE, chunk=1, sweep='E-narrow-sample-types')
     ctx.bounds = {'A': {'n<=': NA, 'nsw': '1..6 and 2n+1', 'sample_types': STYPES,
                         'selectors': SELECTORS},
                   'B': {'n': list(ns), 'files<=': 3, 'chunk': '1..n+1', 'spike_vector_len<=': maxlen,
